@@ -138,7 +138,7 @@ example : ltext auditL [] = bytesOf "/* m */ mov" := by decide
 example : tokens (bytesOf "/* m */ mov") = .ok ⟨[⟨1, 9, .ident (bytesOf "mov")⟩], none, 1, 12⟩ :=
   (layout_tokens auditL [] auditL_ok).trans (by decide)
 
-/-- … and the position inside the comment, which the old `tok_pos` conclusion admitted, is refuted: the token
+/-- … and the position inside the comment, which the old `tok_pos` conclusion allowed, is refuted: the token
 `mov` at 1:4 has no exact placement in this text. -/
 example : ¬ Exact (bytesOf "/* m */ mov") 0 [⟨1, 4, .ident (bytesOf "mov")⟩] := by
   intro h
